@@ -686,7 +686,7 @@ def check_C15(tr):
     if tr.aborted or tr.hang:
         return []
     # an element that is neither handed out nor dropped is leaked (with whatever it owns)
-    bad = [b for b in check_C08(tr) if "0 time(s), dropped by the iterator 0 time(s)" in b] if not tr.case.has_op("skip", "get") else []
+    bad = [b for b in check_C08(tr) if "0 time(s), dropped by the iterator 0 time(s)" in b] if not tr.case.has_op("get") else []
     if tr.fin.get("live", 0) != 0 or tr.fin.get("blocks", 0) != 0:
         bad.append("%d bytes in %d blocks still allocated after the iterator and everything obtained from it were dropped" % (tr.fin.get("live", 0), tr.fin.get("blocks", 0)))
     return bad
